@@ -1017,3 +1017,470 @@ theorem resRes_put_progress {sp : Spec} {f : Facts} {r : RunRes} {ms : List (Nat
         · cases h
 
 end LndModel.C13
+
+namespace LndModel.C13
+
+/-! ### nothing is skipped: the invariant behind `same_outcome_partial` -/
+
+/-- schedule restriction: no stop while the durable state is `StateContractClosed`
+    (between `CommitState(StateContractClosed)` and `CommitState(StateWaitingFullResolution)`).
+    Interleavings and all other stops are unrestricted. -/
+def noStopInClosed : Sys → Action → Prop := fun s a =>
+  match a with
+  | .crash => s.log.state ≠ .contractClosed
+  | _ => True
+
+/-- a cooperative close leaves nothing to resolve. -/
+def Spec.CoopClean (sp : Spec) : Prop :=
+  sp.close = .coop → ∀ c ∈ sp.contracts, c.kind.persisted = false
+
+structure InvK (sp : Spec) (s : Sys) : Prop where
+  k1 : (s.log.state = .waitingFull ∨ s.log.state = .fullyResolved ∨ s.pc = .ccCommit ∨
+          s.chan.fullyClosed = true) →
+        ∀ c ∈ sp.contracts, c.kind.persisted = true → c.key ∈ s.log.keys ∨ c.key ∈ s.resolvedKeys
+  k2 : s.mem = .contractClosed → s.pc = .adv → fullActions sp s.trig = true
+  k3 : s.trig.isClose = true → s.trig = sp.close.trigger
+  k4 : s.chan.pendingClose = true → s.chan.closeKind = sp.close
+  k5 : s.pc ≠ .finished → s.trig.isClose = true → s.trig ≠ .coopClose → s.log.hasRes = true
+  k6 : s.pc ≠ .finished → s.chan.pendingClose = true → sp.close ≠ .coop → s.log.hasRes = true
+  k7 : (s.pc = .evLogCS ∨ s.pc = .evMark) → s.log.hasRes = true
+  k8 : s.pc = .ccCommit → s.log.state = .contractClosed
+  k9 : s.pc = .finished → s.chan.fullyClosed = true
+  k10 : s.pc = .wipe → s.chan.fullyClosed = true
+
+theorem invK_init (sp : Spec) : InvK sp init := by
+  refine ⟨?_, ?_, ?_, ?_, ?_, ?_, ?_, ?_, ?_, ?_⟩ <;> simp [init, Trigger.isClose]
+
+theorem fullActions_of_close (sp : Spec) {t : Trigger} (h : t.isClose = true) :
+    fullActions sp t = true := by
+  cases t <;> simp [Trigger.isClose] at h <;> simp [fullActions]
+
+theorem trigger_isClose (k : CloseKind) : k.trigger.isClose = true := by
+  cases k <;> rfl
+
+theorem trigger_coop {k : CloseKind} (h : k.trigger = .coopClose) : k = .coop := by
+  cases k <;> simp [CloseKind.trigger] at h <;> rfl
+
+theorem trigger_ne_coop {k : CloseKind} (h : k ≠ .coop) : k.trigger ≠ .coopClose := by
+  intro h'; exact h (trigger_coop h')
+
+theorem leaveDefault_target {hr : Bool} {t : Trigger} {d ms : List (Nat × Bool)} {n : AState}
+    (h : leaveDefault hr t d = .commit ms n) :
+    (n = .contractClosed → t.isClose = true) ∧
+    (n = .fullyResolved → t = .coopClose ∨ (t = .breachClose ∧ hr = false)) := by
+  cases t <;> simp [leaveDefault, closeTarget] at h
+  · obtain ⟨_, rfl⟩ := h; simp
+  · obtain ⟨_, rfl⟩ := h; simp
+  · obtain ⟨_, rfl⟩ := h; simp [Trigger.isClose]
+  · obtain ⟨_, rfl⟩ := h; simp [Trigger.isClose]
+  · obtain ⟨_, rfl⟩ := h; simp
+  · cases hr <;> simp at h <;> (obtain ⟨_, rfl⟩ := h; simp [Trigger.isClose])
+
+theorem leaveOnClose_target {hr : Bool} {t : Trigger} {o : AdvRes} {ms : List (Nat × Bool)} {n : AState}
+    (ho : ∀ ms n, o ≠ .commit ms n) (h : leaveOnClose hr t o = .commit ms n) :
+    (n = .contractClosed → t.isClose = true) ∧
+    (n = .fullyResolved → t = .coopClose ∨ (t = .breachClose ∧ hr = false)) := by
+  cases t <;> simp [leaveOnClose, closeTarget] at h
+  · exact absurd h (ho _ _)
+  · exact absurd h (ho _ _)
+  · obtain ⟨_, rfl⟩ := h; simp [Trigger.isClose]
+  · obtain ⟨_, rfl⟩ := h; simp [Trigger.isClose]
+  · obtain ⟨_, rfl⟩ := h; simp
+  · cases hr <;> simp at h <;> (obtain ⟨_, rfl⟩ := h; simp [Trigger.isClose])
+
+/-- how a `CommitState` out of a pre-close state can reach ContractClosed / FullyResolved. -/
+theorem advRes_commit_target {sp : Spec} {s : Sys} {ms : List (Nat × Bool)} {n : AState}
+    (hpre : s.mem.preClosed = true) (h : advRes sp s = .commit ms n) :
+    (n = .contractClosed → s.trig.isClose = true) ∧
+    (n = .fullyResolved → s.trig = .coopClose ∨ (s.trig = .breachClose ∧ s.log.hasRes = false)) := by
+  unfold advRes at h
+  split at h
+  · unfold defaultRes at h
+    split at h
+    · split at h
+      · cases h
+      · exact leaveDefault_target h
+    · split at h
+      · cases h
+      · exact leaveDefault_target h
+  · exact leaveOnClose_target (by intro _ _ hh; cases hh) h
+  · exact leaveOnClose_target (by intro _ _ hh; cases hh) h
+  · rename_i hm; simp [hm, AState.preClosed] at hpre
+  · rename_i hm; simp [hm, AState.preClosed] at hpre
+  · cases h
+
+theorem freshRecs_full_key {sp : Spec} {t : Trigger} (hf : fullActions sp t = true) {c : Contract}
+    (hc : c ∈ sp.contracts) (hp : c.kind.persisted = true) : c.key ∈ (freshRecs sp t).map (·.1) := by
+  simp only [freshRecs, freshContracts, hf, if_true, List.map_map, List.mem_map, List.mem_filter]
+  exact ⟨c, ⟨hc, hp⟩, rfl⟩
+
+theorem mainStep_invK {sp : Spec} (hcoop : sp.CoopClean) {s s' : Sys} (hi : Inv s) (h : InvK sp s)
+    (hs : mainStep sp s = some s') : InvK sp s' := by
+  unfold mainStep at hs
+  split at hs
+  · -- idle
+    rename_i hpc
+    have hnc := not_closed_of_pc hi (by simp [hpc]) (by simp [hpc])
+    split at hs
+    · split at hs
+      · rename_i hcl
+        cases hs
+        refine ⟨?_, ?_, ?_, ?_, ?_, ?_, ?_, ?_, ?_, ?_⟩
+        · intro hc; exact h.k1 (by simpa [hpc, hnc] using hc)
+        · intro _ _; exact fullActions_of_close sp rfl
+        · intro _; simp [hcl, CloseKind.trigger]
+        · intro _; simp [hcl]
+        · intro _ _ hne; simp at hne
+        · intro _ _ hne; exact absurd hcl hne
+        · simp
+        · simp
+        · simp
+        · simp
+      · cases hs
+        refine ⟨?_, ?_, h.k3, h.k4, ?_, ?_, ?_, ?_, ?_, ?_⟩
+        · intro hc; exact h.k1 (by simpa [hpc, hnc] using hc)
+        · simp
+        · intro _ _ _; rfl
+        · intro _ _ _; rfl
+        · intro _; rfl
+        · simp
+        · simp
+        · simp
+    · split at hs
+      · rename_i hw
+        cases hs
+        have hmw : s.mem = .waitingFull := by
+          simp only [Bool.and_eq_true, beq_iff_eq] at hw; exact hw.1
+        refine ⟨?_, ?_, ?_, h.k4, ?_, ?_, ?_, ?_, ?_, ?_⟩
+        · intro hc; exact h.k1 (by simpa [hpc, hnc] using hc)
+        · intro hm; simp [hmw] at hm
+        · intro hc; simp [Trigger.isClose] at hc
+        · intro _ hc; simp [Trigger.isClose] at hc
+        · intro _; exact h.k6 (by simp [hpc])
+        · simp
+        · simp
+        · simp
+        · simp
+      · cases hs
+  · -- evLogCS
+    rename_i hpc
+    have hnc := not_closed_of_pc hi (by simp [hpc]) (by simp [hpc])
+    cases hs
+    have hr := h.k7 (Or.inl hpc)
+    refine ⟨?_, ?_, h.k3, h.k4, ?_, ?_, ?_, ?_, ?_, ?_⟩
+    · intro hc; exact h.k1 (by simpa [hpc, hnc] using hc)
+    · simp
+    · intro _ _ _; exact hr
+    · intro _ _ _; exact hr
+    · intro _; exact hr
+    · simp
+    · simp
+    · simp
+  · -- evMark
+    rename_i hpc
+    have hnc := not_closed_of_pc hi (by simp [hpc]) (by simp [hpc])
+    cases hs
+    have hr := h.k7 (Or.inr hpc)
+    refine ⟨?_, ?_, ?_, ?_, ?_, ?_, ?_, ?_, ?_, ?_⟩
+    · intro hc; exact h.k1 (by simpa [hpc, hnc] using hc)
+    · intro _ _; exact fullActions_of_close sp (trigger_isClose _)
+    · intro _; rfl
+    · intro _; rfl
+    · intro _ _ _; exact hr
+    · intro _ _ _; exact hr
+    · simp
+    · simp
+    · simp
+    · simp
+  · -- adv
+    rename_i hpc
+    have hnc := not_closed_of_pc hi (by simp [hpc]) (by simp [hpc])
+    have hme := hi.memEq (by simp [hpc])
+    split at hs
+    · -- stay
+      split at hs <;>
+      · cases hs
+        refine ⟨?_, ?_, h.k3, h.k4, ?_, ?_, ?_, ?_, ?_, ?_⟩
+        · intro hc; exact h.k1 (by simpa [hpc, hnc] using hc)
+        · simp
+        · intro _; exact h.k5 (by simp [hpc])
+        · intro _; exact h.k6 (by simp [hpc])
+        · simp
+        · simp
+        · simp
+        · simp
+    · -- commit
+      rename_i ms next hadv
+      cases hs
+      refine ⟨?_, ?_, h.k3, h.k4, ?_, ?_, ?_, ?_, ?_, ?_⟩
+      · intro hc c hcm hp
+        simp only [hpc, hnc] at hc
+        simp only [Log.keys]
+        rcases advRes_commit_shape hadv with ⟨hpre, hn⟩ | ⟨hnpre, hn, _⟩
+        · -- from a pre-close state: only FullyResolved matters
+          have hfr : next = .fullyResolved := by
+            rcases hc with hc | hc | hc | hc
+            · rcases hn with hn | hn | hn <;> simp [hn] at hc
+            · exact hc
+            · simp at hc
+            · simp at hc
+          rcases (advRes_commit_target hpre hadv).2 hfr with ht | ⟨ht, hr⟩
+          · have : sp.close = .coop := trigger_coop (by rw [← h.k3 (by simp [ht, Trigger.isClose]), ht])
+            have := hcoop this c hcm
+            simp [this] at hp
+          · have := h.k5 (by simp [hpc]) (by simp [ht, Trigger.isClose]) (by simp [ht])
+            rw [hr] at this; cases this
+        · -- from ContractClosed (nothing to resolve at all) or WaitingFullResolution
+          subst hn
+          by_cases hcc : s.mem = .contractClosed
+          · have hce : sp.contracts.isEmpty = true := by
+              unfold advRes at hadv
+              rw [hcc] at hadv
+              simp only [closedRes] at hadv
+              split at hadv
+              · cases hadv
+              · split at hadv
+                · rename_i hh; simp only [Bool.and_eq_true] at hh; exact hh.1
+                · split at hadv <;> cases hadv
+            simp only [List.isEmpty_iff] at hce
+            rw [hce] at hcm; simp at hcm
+          · have hwf : s.log.state = .waitingFull := by
+              rw [← hme]
+              unfold advRes at hadv
+              split at hadv
+              · rename_i hm; simp [hm, AState.preClosed] at hnpre
+              · rename_i hm; simp [hm, AState.preClosed] at hnpre
+              · rename_i hm; simp [hm, AState.preClosed] at hnpre
+              · rename_i hm; exact absurd hm hcc
+              · assumption
+              · cases hadv
+            exact h.k1 (Or.inl hwf) c hcm hp
+      · intro hm _
+        have hm' : next = .contractClosed := hm
+        rcases advRes_commit_shape hadv with ⟨hpre, _⟩ | ⟨_, hn, _⟩
+        · exact fullActions_of_close sp ((advRes_commit_target hpre hadv).1 hm')
+        · rw [hn] at hm'; cases hm'
+      · intro _; exact h.k5 (by simp [hpc])
+      · intro _; exact h.k6 (by simp [hpc])
+      · simp [hpc]
+      · simp [hpc]
+      · simp [hpc]
+      · simp [hpc]
+    · -- markBroadcast
+      cases hs
+      refine ⟨?_, ?_, h.k3, h.k4, ?_, ?_, ?_, ?_, ?_, ?_⟩
+      · intro hc; exact h.k1 (by simpa [hpc, hnc] using hc)
+      · simp
+      · intro _; exact h.k5 (by simp [hpc])
+      · intro _; exact h.k6 (by simp [hpc])
+      · simp
+      · simp
+      · simp
+      · simp
+    · -- insert
+      rename_i ms fs hadv
+      cases hs
+      have hm := advRes_insert_mem hadv
+      have hst : s.log.state = .contractClosed := by rw [← hme]; exact hm
+      have hfull := h.k2 hm hpc
+      refine ⟨?_, ?_, h.k3, h.k4, ?_, ?_, ?_, ?_, ?_, ?_⟩
+      · intro _ c hcm hp
+        left
+        simp only [Log.keys]
+        exact putAll_new_keys _ _ _ (freshRecs_full_key hfull hcm hp)
+      · simp
+      · intro _; exact h.k5 (by simp [hpc])
+      · intro _; exact h.k6 (by simp [hpc])
+      · simp
+      · intro _; exact hst
+      · simp
+      · simp
+    · -- notify
+      rename_i hadv
+      cases hs
+      have hm := advRes_notify_mem hadv
+      have hst : s.log.state = .fullyResolved := by rw [← hme]; exact hm
+      refine ⟨?_, ?_, h.k3, h.k4, ?_, ?_, ?_, ?_, ?_, ?_⟩
+      · intro _; exact h.k1 (Or.inr (Or.inl hst))
+      · simp
+      · intro _; exact h.k5 (by simp [hpc])
+      · intro _; exact h.k6 (by simp [hpc])
+      · simp
+      · simp
+      · simp
+      · simp
+  · -- bcPublish
+    rename_i hpc
+    have hnc := not_closed_of_pc hi (by simp [hpc]) (by simp [hpc])
+    cases hs
+    refine ⟨?_, ?_, h.k3, h.k4, ?_, ?_, ?_, ?_, ?_, ?_⟩
+    · intro hc; simp [hnc] at hc
+    · simp
+    · intro _; exact h.k5 (by simp [hpc])
+    · intro _; exact h.k6 (by simp [hpc])
+    · simp
+    · simp
+    · simp
+    · simp
+  · -- ccCommit
+    rename_i hpc
+    have hnc := not_closed_of_pc hi (by simp [hpc]) (by simp [hpc])
+    cases hs
+    refine ⟨?_, ?_, h.k3, h.k4, ?_, ?_, ?_, ?_, ?_, ?_⟩
+    · intro _; exact h.k1 (Or.inr (Or.inr (Or.inl hpc)))
+    · simp
+    · intro _; exact h.k5 (by simp [hpc])
+    · intro _; exact h.k6 (by simp [hpc])
+    · simp
+    · simp
+    · simp
+    · simp
+  · -- wipe
+    rename_i hpc
+    cases hs
+    have hfc := h.k10 hpc
+    have hempty := hi.done (Or.inr hfc)
+    refine ⟨?_, ?_, h.k3, h.k4, ?_, ?_, ?_, ?_, ?_, ?_⟩
+    · intro _ c hcm hp
+      right
+      rcases h.k1 (Or.inr (Or.inr (Or.inr hfc))) c hcm hp with hk | hk
+      · simp [Log.keys, hempty] at hk
+      · exact hk
+    · simp
+    · simp
+    · simp
+    · simp
+    · simp
+    · intro _; exact hfc
+    · simp
+  · cases hs
+
+theorem resApply_invK {sp : Spec} {s s' : Sys} {k : Nat} {r : RunRes} {rr : ResRes}
+    (h : InvK sp s) (hs : resApply s k r rr = some s') : InvK sp s' := by
+  unfold resApply at hs
+  split at hs
+  · cases hs
+  · cases hs; exact ⟨h.k1, h.k2, h.k3, h.k4, h.k5, h.k6, h.k7, h.k8, h.k9, h.k10⟩
+  · rename_i ms rec pc
+    by_cases hp : rec.kind.persisted = true
+    · simp only [hp, if_true] at hs
+      cases hs
+      refine ⟨?_, h.k2, h.k3, h.k4, h.k5, h.k6, h.k7, h.k8, h.k9, h.k10⟩
+      intro hc c hcm hpc
+      rcases h.k1 hc c hcm hpc with hk | hk
+      · left; simp only [Log.keys]; exact putRec_keys_sub _ _ _ _ hk
+      · right; exact hk
+    · have hp' : rec.kind.persisted = false := by simpa using hp
+      simp only [hp', Bool.false_eq_true, if_false] at hs
+      cases hs
+      exact ⟨h.k1, h.k2, h.k3, h.k4, h.k5, h.k6, h.k7, h.k8, h.k9, h.k10⟩
+  · cases hs
+    refine ⟨?_, h.k2, h.k3, h.k4, h.k5, h.k6, h.k7, h.k8, h.k9, h.k10⟩
+    intro hc c hcm hpc
+    rcases h.k1 hc c hcm hpc with hk | hk
+    · by_cases hkk : c.key = k
+      · right; simp [hkk]
+      · left; simp only [Log.keys]; exact delRec_keys _ _ _ hk hkk
+    · right; simp [hk]
+  · cases hs; exact ⟨h.k1, h.k2, h.k3, h.k4, h.k5, h.k6, h.k7, h.k8, h.k9, h.k10⟩
+
+theorem restart_invK {sp : Spec} {s : Sys} (h : InvK sp s) (hncc : s.log.state ≠ .contractClosed) :
+    InvK sp (restart s) := by
+  have hpcc : s.pc ≠ .ccCommit := fun hp => hncc (h.k8 hp)
+  refine ⟨?_, ?_, ?_, h.k4, ?_, ?_, ?_, ?_, ?_, ?_⟩
+  · intro hc
+    apply h.k1
+    simp only [restart] at hc
+    rcases hc with hc | hc | hc | hc
+    · exact Or.inl hc
+    · exact Or.inr (Or.inl hc)
+    · split at hc <;> simp at hc
+    · exact Or.inr (Or.inr (Or.inr hc))
+  · intro hm; exact absurd hm hncc
+  · intro hc
+    simp only [restart, restartTrigger] at hc ⊢
+    split
+    · rename_i hcond
+      simp only [Bool.and_eq_true] at hcond
+      rw [h.k4 hcond.1]
+    · rename_i hcond; rw [if_neg hcond] at hc; simp [Trigger.isClose] at hc
+  · intro hnf hc hne
+    have hfc : s.chan.fullyClosed = false := by
+      cases hfc : s.chan.fullyClosed with
+      | false => rfl
+      | true => simp [restart, hfc] at hnf
+    have hsnf : s.pc ≠ .finished := by
+      intro hp; rw [h.k9 hp] at hfc; cases hfc
+    simp only [restart, restartTrigger] at hc hne ⊢
+    split at hc
+    · rename_i hcond
+      simp only [Bool.and_eq_true] at hcond
+      rw [if_pos (by simpa [Bool.and_eq_true] using hcond)] at hne
+      have hk := h.k4 hcond.1
+      refine h.k6 hsnf hcond.1 ?_
+      intro hcp; apply hne; rw [hk, hcp]; rfl
+    · simp [Trigger.isClose] at hc
+  · intro hnf hpd hne
+    have hfc : s.chan.fullyClosed = false := by
+      cases hfc : s.chan.fullyClosed with
+      | false => rfl
+      | true => simp [restart, hfc] at hnf
+    have hsnf : s.pc ≠ .finished := by
+      intro hp; rw [h.k9 hp] at hfc; cases hfc
+    exact h.k6 hsnf hpd hne
+  · intro hc; simp only [restart] at hc; rcases hc with hc | hc <;> (split at hc <;> simp at hc)
+  · intro hc; simp only [restart] at hc; split at hc <;> simp at hc
+  · intro hc
+    simp only [restart] at hc ⊢
+    split at hc
+    · assumption
+    · simp at hc
+  · intro hc; simp only [restart] at hc; split at hc <;> simp at hc
+
+theorem step_invK {sp : Spec} (hcoop : sp.CoopClean) {s s' : Sys} {a : Action} (hi : Inv s)
+    (h : InvK sp s) (hH : noStopInClosed s a) (hs : step sp s a = some s') : InvK sp s' := by
+  cases a with
+  | main => exact mainStep_invK hcoop hi h hs
+  | res k =>
+    simp only [step, resStep] at hs
+    split at hs
+    · cases hs
+    · exact resApply_invK h hs
+  | resAlt k =>
+    simp only [step, resAltStep] at hs
+    split at hs
+    · cases hs
+    · exact resApply_invK h hs
+  | crash => simp only [step] at hs; cases hs; exact restart_invK h hH
+  | fact f =>
+    simp only [step] at hs; cases hs
+    exact ⟨h.k1, h.k2, h.k3, h.k4, h.k5, h.k6, h.k7, h.k8, h.k9, h.k10⟩
+  | forceClose =>
+    simp only [step] at hs
+    split at hs
+    · rename_i hc
+      cases hs
+      have hpc : s.pc = .idle := by
+        simp only [Bool.and_eq_true, beq_iff_eq] at hc; exact hc.1.1
+      have hmd : s.mem = .default := by
+        simp only [Bool.and_eq_true, beq_iff_eq] at hc; exact hc.1.2
+      have hnc := not_closed_of_pc hi (by simp [hpc]) (by simp [hpc])
+      refine ⟨?_, ?_, ?_, h.k4, ?_, ?_, ?_, ?_, ?_, ?_⟩
+      · intro hcnd; exact h.k1 (by simpa [hpc, hnc] using hcnd)
+      · intro hm; simp [hmd] at hm
+      · intro hcl; simp [Trigger.isClose] at hcl
+      · intro _ hcl; simp [Trigger.isClose] at hcl
+      · intro _; exact h.k6 (by simp [hpc])
+      · simp
+      · simp
+      · simp
+      · simp
+    · cases hs
+
+theorem reach_invK {sp : Spec} (hcoop : sp.CoopClean) {s : Sys} (r : Reach sp noStopInClosed s) :
+    InvK sp s := by
+  induction r with
+  | init => exact invK_init sp
+  | step hr hH hs ih => exact step_invK hcoop (reach_inv hr) ih hH hs
+
+end LndModel.C13
